@@ -91,9 +91,18 @@ GLOB_SUB_ALPHA = [b'a', b'b', b'-', b']', b'^', b'\\', b'*', b'[', b'\n']
 
 def glob_cases_random(rng, n):
     for _ in range(n):
-        if rng.random() < 0.7:
+        k = rng.random()
+        if k < 0.5:
             p = b''.join(rng.choice(GLOB_PAT_ALPHA) for _ in range(rng.randint(0, 8)))
             s = b''.join(rng.choice(GLOB_SUB_ALPHA) for _ in range(rng.randint(1, 5)))
+        elif k < 0.75:
+            # ranges and literals over regex metacharacters, punctuation, digits, upper case and high bytes
+            rich = [bytes([c]) for c in b'+.$()|{}~ 09AZaz!#,/:;<=>@_`"\'&%'] + [b'[', b']', b'-', b'-', b'^', b'\\', b'*', b'?', b'\x80', b'\xff', b'\xd0\xba']
+            p = b''.join(rng.choice(rich) for _ in range(rng.randint(1, 9)))
+            if rng.random() < 0.5:
+                a, b = rng.choice(rich[:32]), rng.choice(rich[:32])
+                p = rng.choice([b'', b'x']) + b'[' + a + b'-' + b + b']' + rng.choice([b'', b'*'])
+            s = b''.join(rng.choice(rich[:32] + [b'\x80', b'\xff', b'\xd0', b'\xba']) for _ in range(rng.randint(1, 4)))
         else:
             p = bytes(rng.choice([rng.randrange(256), 42, 63, 91, 93, 92, 94, 45]) for _ in range(rng.randint(0, 10)))
             s = bytes(rng.randrange(256) for _ in range(rng.randint(1, 6)))
